@@ -26,6 +26,10 @@ from pybrops.opt.prob.BinaryProblem import BinaryProblem
 
 # ----------------------------------------------------------------------------
 # problems
+class NonTermination(Exception):
+    """the optimiser exceeded the evaluation budget that bounds any strictly improving search"""
+
+
 class _TableSubset(SubsetProblem):
     """obj_j(x) = w_j * ( sum_i s_j[x_i] + sum_{a<b} pair_j[x_a][x_b] );
     ineqcv_i(x) = w * max(0, sum_i cw_i[x_i] - cap_i);  eqcv_i(x) = w * |sum_i ew_i[x_i] - target_i|.
@@ -38,6 +42,7 @@ class _TableSubset(SubsetProblem):
         self._t_ineq = [(list(map(float, c["w"])), float(c["cap"])) for c in spec.get("ineq", [])]
         self._t_eq = [(list(map(float, c["w"])), float(c["target"])) for c in spec.get("eq", [])]
         self.n_evalfn = 0
+        self.limit = None
         super().__init__(
             ndecn=spec["k"], decn_space=cand, decn_space_lower=int(cand.min()), decn_space_upper=int(cand.max()),
             nobj=len(self._t_obj), obj_wt=numpy.array(spec.get("obj_wt", [1.0] * len(self._t_obj)), dtype=float),
@@ -46,6 +51,8 @@ class _TableSubset(SubsetProblem):
 
     def evalfn(self, x, *args, **kwargs):
         self.n_evalfn += 1
+        if self.limit is not None and self.n_evalfn > self.limit:
+            raise NonTermination(f"more than {self.limit} objective evaluations in one minimize() call")
         pos = self._t_pos
         ix = [pos[int(v)] for v in x]
         obj = numpy.empty(len(self._t_obj))
@@ -139,7 +146,7 @@ def build(spec):
 
 # ----------------------------------------------------------------------------
 # reference side
-_SKIP = ("n_evalfn",)
+_SKIP = ("n_evalfn", "limit")
 
 
 def _fc(v):
